@@ -30,6 +30,7 @@ Arguments Ok {A}. Arguments Err {A}.
 Definition E_NOSUCH : Z := 2.      (* refers to something that does not exist (any more): no-op, observation [-2] *)
 Definition E_ILLEGAL : Z := 3.     (* the recorded outcome is not a legal outcome in this state: observation [-3] *)
 Definition E_NOEMPTY : Z := 1.     (* Exception("ERROR: No empty cells") : observation [-1; 1] *)
+Definition E_EMPTYSEQ : Z := 4.    (* IndexError: choice from an empty sequence : observation [-1; 2] *)
 
 Record agent := { a_id : Z; a_cls : Z; a_key : Z }.
 Record coll := { members : list Z; gen : genid }.
@@ -101,13 +102,20 @@ Definition is_index_perm (n : nat) (idxs : list Z) : bool :=
   Nat.eqb (length idxs) n &&
   forallb (fun i => zmem (Z.of_nat i) idxs) (seq 0 n).
 
-Definition pick_all (l : list Z) (idxs : list Z) : list Z :=
+Definition pick_all {A : Type} (l : list A) (idxs : list Z) : list A :=
   flat_map (fun i => match znth l i with Some x => [x] | None => [] end) idxs.
 
 (* random.shuffle on a list: the result is determined by the list (in its order) and by the index permutation the
    generator produced *)
-Definition shuffle_apply (l : list Z) (idxs : list Z) : result (list Z) :=
+Definition shuffle_apply {A : Type} (l : list A) (idxs : list Z) : result (list A) :=
   if is_index_perm (length l) idxs then Ok (pick_all l idxs) else Err E_ILLEGAL.
+
+(* random.choice(seq): IndexError on an empty sequence, else seq[k] for the index k the generator drew *)
+Definition choice_from {A : Type} (l : list A) (k : Z) : result A :=
+  match l with
+  | [] => Err E_EMPTYSEQ
+  | _ => match znth l k with Some x => Ok x | None => Err E_ILLEGAL end
+  end.
 
 (* ------------------------------------------------------------------ AgentSet derivations *)
 Inductive term :=
@@ -294,6 +302,47 @@ Definition choose_empty (srt : bool) (w : world) (pi : list coord) (k : Z) (tape
   else if negb (legal_order w pi) then Err E_ILLEGAL
   else match znth (choice_arg srt pi) k with Some p => Ok p | None => Err E_ILLEGAL end.
 
+(* Grid.select_random_empty_cell with _try_random: while True: cell = all_cells.select_random_cell(); if cell.is_empty: return *)
+Fixpoint try_random (w : world) (tape : list Z) : result Z :=
+  match tape with
+  | [] => Err E_ILLEGAL
+  | c :: t =>
+      if negb (zmem c (map fst (w_cells w))) then Err E_ILLEGAL
+      else if cell_empty w c then (match t with [] => Ok c | _ => Err E_ILLEGAL end)
+      else try_random w t
+  end.
+
+Definition cell_agents (w : world) (c : Z) : list Z :=
+  match zassoc c (w_cells w) with Some l => l | None => [] end.
+
+(* _Grid.move_agent_to_one_of on a non-torus grid *)
+Definition dist2 (p q : coord) : Z :=
+  (fst p - fst q) * (fst p - fst q) + (snd p - snd q) * (snd p - snd q).
+
+(* for p in pos: distance < min -> clear, append ; == min -> append     (min_distance = inf is `None`) *)
+Fixpoint closest_scan (cur : coord) (ps : list coord) (best : option Z) (acc : list coord) : list coord :=
+  match ps with
+  | [] => acc
+  | p :: t =>
+      let d := dist2 p cur in
+      match best with
+      | None => closest_scan cur t (Some d) [p]
+      | Some m =>
+          if d <? m then closest_scan cur t (Some d) [p]
+          else if d =? m then closest_scan cur t best (acc ++ [p])
+          else closest_scan cur t best acc
+      end
+  end.
+
+(* selection == "random": choice(pos);  "closest": shuffle(pos), scan, choice(closest_pos) *)
+Definition one_of_choice (cur : coord) (ps : list coord) (closest : bool) (idxs : list Z) (k : Z) : result coord :=
+  match (if closest
+         then match shuffle_apply ps idxs with Ok l => Ok (closest_scan cur l None []) | Err e => Err e end
+         else Ok ps) with
+  | Err e => Err e
+  | Ok cs => match znth cs k with Some p => Ok p | None => Err E_ILLEGAL end
+  end.
+
 (* ------------------------------------------------------------------ operations *)
 Inductive op :=
 | Derive (d : term)
@@ -303,9 +352,16 @@ Inductive op :=
 | SelectRandomEmpty (k : Z)         (* DiscreteSpace.select_random_empty_cell(): choice(list(self.empties)) *)
 | LPlace (a : Z) (p : coord)        (* SingleGrid.place_agent of an unplaced registered agent on an empty cell *)
 | LRemove (a : Z)                   (* SingleGrid.remove_agent *)
-| MoveToEmpty (a : Z) (pi : list coord) (k : Z) (tape : list coord).
+| MoveToEmpty (a : Z) (pi : list coord) (k : Z) (tape : list coord)
+| ShuffleDo (d : term) (idxs : list Z)     (* d.shuffle_do(f): the activation order *)
+| RandomCell (d : cterm) (k : Z)           (* d.select_random_cell() *)
+| RandomAgent (d : cterm) (k : Z)          (* d.select_random_agent() *)
+| TryRandomEmpty (tape : list Z)           (* Grid.select_random_empty_cell(), _try_random = True *)
+| MoveOneOf (a : Z) (ps : list coord) (closest : bool) (idxs : list Z) (k : Z).
+                                           (* grid.move_agent_to_one_of(a, ps, selection) ; ps free cells or a's own *)
 
-Definition obs_err (k : Z) : list Z := if k =? E_NOEMPTY then [-1; 1] else [- k].
+Definition obs_err (k : Z) : list Z :=
+  if k =? E_NOEMPTY then [-1; 1] else if k =? E_EMPTYSEQ then [-1; 2] else [- k].
 Definition obs_coll (c : coll) : list Z := gen c :: members c.
 Definition obs_res (r : result coll) : list Z :=
   match r with Ok c => obs_coll c | Err k => obs_err k end.
@@ -342,7 +398,7 @@ Definition step (srt : bool) (w : world) (o : op) : world * list Z :=
       end
   | SelectRandomEmpty k =>
       match znth (filter (cell_empty w) (map fst (w_cells w))) k with
-      | Some c => (w, [0; c])
+      | Some c => (w, [w_sgen w; c])            (* drawn from space.random *)
       | None => (w, obs_err E_ILLEGAL)
       end
   | LPlace a p =>
@@ -368,6 +424,51 @@ Definition step (srt : bool) (w : world) (o : op) : world * list Z :=
               (* self.remove_agent(agent); self.place_agent(agent, new_pos) *)
               let w' := set_lgrid w (l_remove a (w_lgrid w) ++ [(p, a)]) in
               (w', 0 :: fst p :: snd p :: lgrid_view w')
+          end
+      end
+  | ShuffleDo d idxs =>
+      match eval w d with
+      | Ok c => match shuffle_apply (members c) idxs with
+                | Ok l => (w, gen c :: l)               (* self.random.shuffle(weakrefs); call each in that order *)
+                | Err e => (w, obs_err e)
+                end
+      | Err e => (w, obs_err e)
+      end
+  | RandomCell d k =>
+      match ceval w d with
+      | Ok c => match choice_from (members c) k with       (* self.random.choice(self.cells) *)
+                | Ok x => (w, [gen c; x])
+                | Err e => (w, obs_err e)
+                end
+      | Err e => (w, obs_err e)
+      end
+  | RandomAgent d k =>
+      match ceval w d with
+      | Ok c => match choice_from (flat_map (cell_agents w) (members c)) k with   (* choice(list(self.agents)) *)
+                | Ok x => (w, [gen c; x])
+                | Err e => (w, obs_err e)
+                end
+      | Err e => (w, obs_err e)
+      end
+  | TryRandomEmpty tape =>
+      match try_random w tape with
+      | Ok c => (w, [w_sgen w; c])
+      | Err e => (w, obs_err e)
+      end
+  | MoveOneOf a ps closest idxs k =>
+      match lpos_of a (w_lgrid w) with
+      | None => (w, obs_err E_NOSUCH)
+      | Some cur =>
+          (* the caller offers the free cells (or the agent's own) among ps, like [p for p in ps if is_cell_empty(p)] *)
+          match filter (fun p => l_in_grid w p && (l_is_empty w p || coord_eqb p cur)) ps with
+          | [] => (w, 0 :: lgrid_view w)            (* `if pos:` is false, handle_empty=None *)
+          | ps' =>
+              match one_of_choice cur ps' closest idxs k with
+              | Err e => (w, obs_err e)
+              | Ok p =>                              (* self.move_agent(agent, chosen_pos) *)
+                  let w' := set_lgrid w (l_remove a (w_lgrid w) ++ [(p, a)]) in
+                  (w', 0 :: fst p :: snd p :: lgrid_view w')
+              end
           end
       end
   end.
